@@ -7,11 +7,17 @@
    `vh run C03` (CvCbe, CvEvents, CvCte) and, for the string classes and the time fields, by CvIdent, CvMedia, CvTime.
    The component models are those of C01 (Model/Cbe.v), C23 (Model/CteEnc.v), C02 (Model/CteRead.v), C10 (Model/Rules.v).
 
-   Result: the property is FALSE on the current code (section 4); what holds is
+   State after the repairs 40e3af2 (cbe validateTime) and afaa1e5 (rules ValidateMediaType / ValidateCustomType):
    (1) identifiers: everything the validator admits is spellable and is read back (closed, all inputs);
-   (2) media types and area/location names: exact characterisation of what the lexer takes back (closed, all inputs);
-       time fields: exact characterisation for every value of the CBE bit fields (finite sweeps, bounds stated);
-   (3) the conversion on the fragment where the CTE round trip (property C02) holds: C03 = C01 after C02. *)
+   (2) media types: the validator admits exactly the lexer's MEDIA_TYPE shape, and the encoder's spelling is read
+       back as that media type, never as a typed-array header or a custom type (closed, all inputs);
+       times: what validateTime lets through is read back as the same time — for every value of the CBE bit
+       fields (finite sweeps, bounds stated) and for every area/location string (closed, all inputs);
+       custom type codes the validator admits fit the CBE decoder's limit;
+   (3) the conversion on the fragment where the CTE round trip (property C02) holds: C03 = C01 after C02;
+   (4) the property as stated is still FALSE: a NaN payload in a float array does not survive the text form
+       (inherited from C02).  Further open findings outside these models: zero time values are written as null,
+       years beyond 32 bits wrap inside go-compact-time, big floats that are not a float64 (C01). *)
 From CE Require Import Model.Convert Proofs.ConvertProofs.
 From CE Require Model.Cbe Model.CteEnc Model.CteRead Model.Denote Model.Rules Proofs.CbeRoundtrip Gen.RulesConsts.
 Require Coq.Strings.String.
@@ -58,35 +64,61 @@ Example C03_identifier_example :
 Proof. vm_compute. repeat split; discriminate. Qed.
 
 (* ------------------------------------------------------------------ *)
-(* 2. Media types, area/location names, time fields: what the text side takes back, exactly *)
+(* 2. Media types, times, custom types: what the binary side admits, the text side takes back *)
 
-(* The validator admits any valid UTF-8 as a media type (media_valid), the CBE decoder passes any bytes
-   on, the CTE encoder writes it verbatim between '@' and '['.  The lexer's MEDIA_TYPE fragment matches
-   that spelling — the whole media type, then the bracket (or the quote of the text form) — if and only if
-   the media type has the shape letter, token characters, one slash, at least one token character. *)
+(* rules.ValidateMediaType (Rules.media_type_valid, on bytes) admits exactly the strings of the lexer's
+   MEDIA_TYPE shape: letter, token characters, one slash, at least one token character. *)
+Theorem C03_media_type_valid_iff_lexable :
+  forall mt, Rules.media_type_valid mt = media_lexable_runes mt.
+Proof. exact media_type_valid_iff_lexable. Qed.
+Print Assumptions C03_media_type_valid_iff_lexable.
+
+Theorem C03_media_type_valid_is_lexable :
+  forall mt, media_valid mt = true -> media_lexable mt = true.
+Proof. exact media_valid_lexable. Qed.
+Print Assumptions C03_media_type_valid_is_lexable.
+
+(* The lexer's MEDIA_TYPE fragment matches the encoder's spelling — the whole media type, then the bracket
+   (or the quote of the text form) — if and only if the media type has that shape. *)
 Theorem C03_media_type_lexable_iff :
   forall s t rest, t = 91 \/ t = 34 ->
   (CteRead.m_media (s ++ t :: rest) = Some (s, t, rest) <-> media_lexable_runes s = true).
 Proof. exact m_media_iff. Qed.
 Print Assumptions C03_media_type_lexable_iff.
 
-(* compact_time's decoder accepts any 1..127 bytes as an area/location name and nothing on the binary
-   side validates it; the CTE encoder writes the long name verbatim after a slash.  The lexer's
-   TZ_AREALOC fragment consumes that spelling up to [rest] if and only if the name starts with a
-   capital ASCII letter and continues with letters, digits, '_' '-' '.' '/' '+'. *)
-Theorem C03_area_location_lexable_iff :
-  forall s rest, stops CteRead.ch_area_next rest ->
-  (CteRead.m_tz_area (47 :: s ++ rest) = Some rest <-> area_lexable_runes s = true).
-Proof. exact m_tz_area_iff. Qed.
-Print Assumptions C03_area_location_lexable_iff.
+(* For a media type the validator admits, the token the reader builds from "@mt[" ... / "@mt" quote ... is the
+   media token with exactly that media type (cte/encoder_array.go writes "@%v["): it is never taken for a
+   typed-array header ("@i8[") or a custom type ("@7["), whatever the payload. *)
+Theorem C03_media_type_reread :
+  forall mt idx r, media_valid mt = true ->
+  CteRead.at_token idx (runes mt ++ 91 :: r) =
+    match CteRead.bytes_body r with
+    | Some (data, rest) => Some (CteRead.TVal (EMedia mt data), rest, idx)
+    | None => None
+    end /\
+  CteRead.at_token idx (runes mt ++ 34 :: r) =
+    match CteRead.lex_string idx r with
+    | Some (data, rest, idx') => Some (CteRead.TVal (EMedia mt data), rest, idx')
+    | None => None
+    end.
+Proof. exact media_valid_reread. Qed.
+Print Assumptions C03_media_type_reread.
 
-(* Time fields.  [time_string t] is compact_time's String() of the value the CBE reader builds (what
-   the CTE encoder writes), [time_reread] what the complete reader model makes of it.  For EVERY value
-   of the hour (5 bits), minute and second (6 bits each) fields: *)
+(* Custom type codes the validator admits (ValidateCustomType) fit the CBE decoder's limit and the encoder's uint64. *)
+Theorem C03_custom_type_fits :
+  forall ct, Rules.custom_type_ok ct = true -> ct <= Cbe.custom_type_max /\ Cbe.is_u64 ct = true.
+Proof. exact custom_type_ok_fits. Qed.
+Print Assumptions C03_custom_type_fits.
+
+(* Times.  [time_string t] is compact_time's String() of the value built from the CBE fields (what the CTE
+   encoder writes), [cbe_time_ok t] is cbe/decoder_reader.go validateTime on it, [time_reread] is what the
+   complete reader model makes of the text.  On each family the text side accepts exactly when the binary
+   side does, and reads the same time.  EVERY value of the hour (5 bits), minute and second (6 bits) fields: *)
 Theorem C03_clock_fields_exact :
   forall h m s, h < 32 -> m < 64 -> s < 64 ->
   time_reread (time_string (clock_time h m s TzUTC)) =
-  if (h <=? 23) && (m <=? 59) && (s <=? 60) then Some (time_string (clock_time h m s TzUTC)) else None.
+    (if cbe_time_ok (clock_time h m s TzUTC) then Some (time_string (clock_time h m s TzUTC)) else None) /\
+  cbe_time_ok (clock_time h m s TzUTC) = (h <=? 23) && (m <=? 59) && (s <=? 60).
 Proof. exact clock_fields_exact. Qed.
 Print Assumptions C03_clock_fields_exact.
 
@@ -94,7 +126,8 @@ Print Assumptions C03_clock_fields_exact.
 Theorem C03_date_fields_exact :
   forall mo d, mo < 16 -> d < 32 ->
   time_reread (time_string (date_time 2020 mo d)) =
-  if (1 <=? mo) && (mo <=? 12) && (1 <=? d) && (d <=? CteRead.day_max mo) then Some (time_string (date_time 2020 mo d)) else None.
+    (if cbe_time_ok (date_time 2020 mo d) then Some (time_string (date_time 2020 mo d)) else None) /\
+  cbe_time_ok (date_time 2020 mo d) = (1 <=? mo) && (mo <=? 12) && (1 <=? d) && (d <=? CteRead.day_max mo).
 Proof. exact date_fields_exact. Qed.
 Print Assumptions C03_date_fields_exact.
 
@@ -102,7 +135,8 @@ Print Assumptions C03_date_fields_exact.
 Theorem C03_utc_offset_field_exact :
   forall o, (-2048 <= o < 2048)%Z ->
   time_reread (time_string (clock_time 1 2 3 (TzOffset o))) =
-  if ((-1439 <=? o) && (o <=? 1439))%Z then Some (time_string (clock_time 1 2 3 (TzOffset o))) else None.
+    (if cbe_time_ok (clock_time 1 2 3 (TzOffset o)) then Some (time_string (clock_time 1 2 3 (TzOffset o))) else None) /\
+  cbe_time_ok (clock_time 1 2 3 (TzOffset o)) = ((-1439 <=? o) && (o <=? 1439))%Z.
 Proof. exact offset_field_exact. Qed.
 Print Assumptions C03_utc_offset_field_exact.
 
@@ -110,23 +144,53 @@ Print Assumptions C03_utc_offset_field_exact.
 Theorem C03_latitude_field_exact :
   forall la, (-16384 <= la < 16384)%Z ->
   time_reread (time_string (clock_time 1 2 3 (TzLatLong la 0))) =
-  if ((-9000 <=? la) && (la <=? 9000))%Z then Some (time_string (clock_time 1 2 3 (TzLatLong la 0))) else None.
+    (if cbe_time_ok (clock_time 1 2 3 (TzLatLong la 0)) then Some (time_string (clock_time 1 2 3 (TzLatLong la 0))) else None) /\
+  cbe_time_ok (clock_time 1 2 3 (TzLatLong la 0)) = ((-9000 <=? la) && (la <=? 9000))%Z.
 Proof. exact latitude_field_exact. Qed.
 Print Assumptions C03_latitude_field_exact.
 
 Theorem C03_longitude_field_exact :
   forall lo, (-32768 <= lo < 32768)%Z ->
   time_reread (time_string (clock_time 1 2 3 (TzLatLong 0 lo))) =
-  if ((-18000 <=? lo) && (lo <=? 18000))%Z then Some (time_string (clock_time 1 2 3 (TzLatLong 0 lo))) else None.
+    (if cbe_time_ok (clock_time 1 2 3 (TzLatLong 0 lo)) then Some (time_string (clock_time 1 2 3 (TzLatLong 0 lo))) else None) /\
+  cbe_time_ok (clock_time 1 2 3 (TzLatLong 0 lo)) = ((-18000 <=? lo) && (lo <=? 18000))%Z.
 Proof. exact longitude_field_exact. Qed.
 Print Assumptions C03_longitude_field_exact.
 
+(* Area/location zones, for EVERY string the area/location field can hold (no bound): when validateTime lets
+   the time through, the complete reader reads the CTE encoder's spelling back as the same time — the same
+   zone, an alias of UTC or Local being named canonically ([time_canon]). *)
+Theorem C03_area_zone_reread :
+  forall raw, cbe_time_ok (clock_time 1 2 3 (TzArea raw)) = true ->
+  time_reread (time_string (clock_time 1 2 3 (TzArea raw))) = Some (time_string (time_canon (clock_time 1 2 3 (TzArea raw)))).
+Proof. exact area_zone_reread. Qed.
+Print Assumptions C03_area_zone_reread.
+
+(* the reader on "01:02:03/name" for every lexable name, in its own terms (tz_area_text: aliases, expansion
+   of a one-letter area, 127-byte limit) *)
+Theorem C03_area_time_reread :
+  forall name, area_lexable_runes name = true ->
+  time_reread (clock_txt ++ 47 :: name) = option_map (fun tz => clock_txt ++ tz) (CteRead.tz_area_text name).
+Proof. exact area_time_reread. Qed.
+Print Assumptions C03_area_time_reread.
+
+(* The lexer's TZ_AREALOC fragment consumes the spelling up to [rest] if and only if the name starts with a
+   capital ASCII letter and continues with letters, digits, '_' '-' '.' '/' '+' — the test validateTime applies. *)
+Theorem C03_area_location_lexable_iff :
+  forall s rest, stops CteRead.ch_area_next rest ->
+  (CteRead.m_tz_area (47 :: s ++ rest) = Some rest <-> area_lexable_runes s = true).
+Proof. exact m_tz_area_iff. Qed.
+Print Assumptions C03_area_location_lexable_iff.
+
 Example C03_lexable_examples :
-  media_lexable (str "application/x-www-form-urlencoded"%string) = true /\ media_lexable (str "i8"%string) = false /\
-  media_lexable [] = false /\ media_lexable (str "text/plain; charset=utf-8"%string) = false /\
+  media_valid (str "application/x-www-form-urlencoded"%string) = true /\ media_valid (str "i8"%string) = false /\
+  media_valid [] = false /\ media_valid (str "text/plain; charset=utf-8"%string) = false /\
   area_lexable (str "America/Argentina/Buenos_Aires"%string) = true /\ area_lexable (str "x"%string) = false /\
+  cbe_time_ok (clock_time 23 59 60 (TzArea (str "E/Berlin"%string))) = true /\
   time_expected (clock_time 23 59 60 (TzArea (str "E/Berlin"%string))) = Some (str "23:59:60/Europe/Berlin"%string) /\
-  time_expected (clock_time 24 0 0 TzUTC) = None.
+  cbe_time_ok (clock_time 1 2 3 (TzArea (str "C/UTC"%string))) = true /\
+  time_expected (clock_time 1 2 3 (TzArea (str "C/UTC"%string))) = Some (str "01:02:03"%string) /\
+  cbe_time_ok (clock_time 24 0 0 TzUTC) = false /\ cbe_time_ok (clock_time 1 2 3 (TzArea (str "x"%string))) = false.
 Proof. vm_compute. repeat split. Qed.
 
 (* ------------------------------------------------------------------ *)
@@ -135,9 +199,9 @@ Proof. vm_compute. repeat split. Qed.
    [read] is the CTE decoder as a function from documents to events and [P] a set of validated streams on
    which property C02 is assumed for it ([c02_on read P]: the decoder reads the encoder's text, the
    validator accepts what it reads, the data is the input's without its padding).  Excluded therefore:
-   exactly the streams outside [P] — by sections 2 and 4 every stream with a media type that is not
-   [media_lexable], a zone name that is not [area_lexable], a time field outside compact_time's Validate
-   ranges, plus the constructs property C02 itself excludes.  For a CBE document whose validated stream
+   exactly the streams outside [P], i.e. the constructs property C02 itself excludes (section 4: NaN payloads
+   in float arrays; big-decimal coefficients above 64 bits) — by sections 1 and 2 no longer any identifier,
+   media type, time or custom type the binary side accepts.  For a CBE document whose validated stream
    lies in [P]: the text is accepted with the same data, and when the re-read stream lies in the fragment
    of the CBE round-trip theorem (C01, [c01_doc_norm]) the document converted back decodes to the same
    data again. *)
@@ -167,7 +231,7 @@ Example C03_conversion_example :
 Proof. exact (conj c03_example_accepted (conj c03_example_c02 c03_example_back)). Qed.
 
 (* ------------------------------------------------------------------ *)
-(* 4. The property as stated is false on the current code *)
+(* 4. The property as stated is still false on the current code; the repaired classes *)
 
 Definition C03_full : Prop := ConvertProofs.C03_full.
 
@@ -175,29 +239,15 @@ Theorem C03_full_refuted : ~ C03_full.
 Proof. exact ConvertProofs.C03_full_refuted. Qed.
 Print Assumptions C03_full_refuted.
 
-(* first half, loud: media type "a" (no slash) is accepted by cbe.Decoder + rules, written as "@a[01 02]",
-   and that text is rejected by cte.Decoder + rules *)
-Theorem C03_refuted_media_type_not_spellable : ~ C03_cbe_half.
-Proof. exact C03_cbe_half_refuted. Qed.
-Print Assumptions C03_refuted_media_type_not_spellable.
-
-Theorem C03_refuted_media_type_outcomes :
-  cbe_outcome (media_doc (str "a"%string)) = (true, Some (str "c0"%string ++ [10] ++ str "@a[01 02]"%string), false, false) /\
-  cbe_outcome (media_doc []) = (true, Some (str "c0"%string ++ [10] ++ str "@[01 02]"%string), false, false) /\
-  cbe_outcome (media_doc (str "text/plain; charset=utf-8"%string)) =
-    (true, Some (str "c0"%string ++ [10] ++ str "@text/plain; charset=utf-8[01 02]"%string), false, false) /\
-  cbe_outcome (media_doc (str "a/b"%string)) = (true, Some (str "c0"%string ++ [10] ++ str "@a/b[01 02]"%string), true, true).
-Proof. exact media_unspellable_outcomes. Qed.
-Print Assumptions C03_refuted_media_type_outcomes.
-
-(* first half, silent: media type "i8" is written as "@i8[01 02]", which both sides accept — as an array
-   of two signed bytes, not as media *)
-Theorem C03_refuted_media_type_read_as_array :
-  cbe_outcome (media_doc (str "i8"%string)) = (true, Some (str "c0"%string ++ [10] ++ str "@i8[01 02]"%string), true, false) /\
-  option_map r_reread (option_map cbe_report_of (cbe_side (media_doc (str "i8"%string)))) =
-    Some (Some [EBeginDoc; EVersion 0; EArray RulesConsts.AT_Int8 2 [1; 2]; EEndDoc]).
-Proof. exact media_i8_outcome. Qed.
-Print Assumptions C03_refuted_media_type_read_as_array.
+(* open (inherited from C02, key C03/cbe-cte/float-array-nan-payload): the 8-byte document 81 00 7f 91 01 00 c0 7f
+   (float32 array with the one element 7fc00001) is accepted, written "@f32x[nan]", accepted again — with the
+   element 7fe00000 *)
+Theorem C03_refuted_nan_payload :
+  cbe_outcome nan_payload_doc = (true, Some (str "c0"%string ++ [10] ++ str "@f32x[nan]"%string), true, false) /\
+  option_map r_reread (option_map cbe_report_of (cbe_side nan_payload_doc)) =
+    Some (Some [EBeginDoc; EVersion 0; EArray RulesConsts.AT_Float32 1 [0; 0; 224; 127]; EEndDoc]).
+Proof. exact nan_payload_outcome. Qed.
+Print Assumptions C03_refuted_nan_payload.
 
 Theorem C03_refuted_silently :
   exists doc es t es2, cbe_side doc = Some es /\ to_cte es = Some t /\ cte_side t = Some es2 /\
@@ -205,35 +255,23 @@ Theorem C03_refuted_silently :
 Proof. exact C03_cbe_half_refuted_silently. Qed.
 Print Assumptions C03_refuted_silently.
 
-(* times (event level: Model/Cbe.v does not decode times; that cbe.Decoder + rules deliver exactly these
-   values is observed by the harness, keys C03/cbe-cte/area-location-... and C03/cbe-cte/time-...): a zone
-   name that does not start with a capital, fields outside compact_time's Validate ranges *)
-Theorem C03_refuted_times : ~ C03_text_side.
-Proof. exact C03_text_side_refuted. Qed.
-Print Assumptions C03_refuted_times.
+(* repaired: the former witnesses — media types "i8" (read back as an int8 array), "7" (as custom type 7), "a",
+   the empty one, "text/plain; charset=utf-8" (not read back at all) — are refused by the binary side; a
+   well-formed media type converts with the same data *)
+Theorem C03_repaired_media_types :
+  cbe_outcome (media_doc (str "i8"%string)) = (false, None, false, false) /\
+  cbe_outcome (media_doc (str "7"%string)) = (false, None, false, false) /\
+  cbe_outcome (media_doc (str "a"%string)) = (false, None, false, false) /\
+  cbe_outcome (media_doc []) = (false, None, false, false) /\
+  cbe_outcome (media_doc (str "text/plain; charset=utf-8"%string)) = (false, None, false, false) /\
+  cbe_outcome (media_doc (str "a/b"%string)) = (true, Some (str "c0"%string ++ [10] ++ str "@a/b[01 02]"%string), true, true).
+Proof. exact media_outcomes. Qed.
+Print Assumptions C03_repaired_media_types.
 
-Theorem C03_refuted_time_outcomes :
-  text_outcome (time_stream (str "01:02:03/x"%string)) = (true, Some (str "c0"%string ++ [10] ++ str "01:02:03/x"%string), false) /\
-  text_outcome (time_stream (str "01:02:03/europe/berlin"%string)) = (true, Some (str "c0"%string ++ [10] ++ str "01:02:03/europe/berlin"%string), false) /\
-  text_outcome (time_stream (str "31:02:03"%string)) = (true, Some (str "c0"%string ++ [10] ++ str "31:02:03"%string), false) /\
-  text_outcome (time_stream (str "2000-13-00"%string)) = (true, Some (str "c0"%string ++ [10] ++ str "2000-13-00"%string), false) /\
-  text_outcome (time_stream (str "0-01-01"%string)) = (true, Some (str "c0"%string ++ [10] ++ str "0-01-01"%string), false) /\
-  text_outcome (time_stream (str "01:02:03+3407"%string)) = (true, Some (str "c0"%string ++ [10] ++ str "01:02:03+3407"%string), false) /\
-  text_outcome (time_stream (str "01:02:03/163.83/327.67"%string)) = (true, Some (str "c0"%string ++ [10] ++ str "01:02:03/163.83/327.67"%string), false) /\
-  text_outcome (time_stream (str "01:02:03/Europe/Berlin"%string)) = (true, Some (str "c0"%string ++ [10] ++ str "01:02:03/Europe/Berlin"%string), true).
-Proof. exact time_outcomes. Qed.
-Print Assumptions C03_refuted_time_outcomes.
-
-(* second half: custom type 2^32 is accepted by cte.Decoder + rules, written by the CBE encoder, and
-   that document is rejected by the CBE decoder (its limit is 2^32-1) *)
-Theorem C03_refuted_custom_type_over_32_bits : ~ C03_cte_half.
-Proof. exact C03_cte_half_refuted. Qed.
-Print Assumptions C03_refuted_custom_type_over_32_bits.
-
-Theorem C03_refuted_custom_type_outcome :
-  cte_side custom_big_text = Some [EBeginDoc; EVersion 0; ECustomBin 4294967296 [1]; EEndDoc] /\
-  to_cbe [EBeginDoc; EVersion 0; ECustomBin 4294967296 [1]; EEndDoc] = Some [129; 0; 146; 128; 128; 128; 128; 16; 2; 1] /\
-  cbe_side [129; 0; 146; 128; 128; 128; 128; 16; 2; 1] = None /\
-  cte_converts custom_big_text = false /\ cte_converts (str "c0 @4294967295[01]"%string) = true.
-Proof. exact custom_big_outcome. Qed.
-Print Assumptions C03_refuted_custom_type_outcome.
+(* repaired: custom type 2^32 is refused by the text side's validator; 2^32-1 converts *)
+Theorem C03_repaired_custom_types :
+  cte_side custom_big_text = None /\
+  cte_converts custom_big_text = true /\ cte_converts (str "c0 @4294967295[01]"%string) = true /\
+  cte_side (str "c0 @4294967295[01]"%string) = Some [EBeginDoc; EVersion 0; ECustomBin 4294967295 [1]; EEndDoc].
+Proof. exact custom_outcomes. Qed.
+Print Assumptions C03_repaired_custom_types.
